@@ -54,6 +54,8 @@ class Ctx(object):
         self.lock = threading.Lock()
         self.bads = []            # (part, script_lines or None, record)
         self.drift = 0
+        self.drift_impl = 0       # code's DNF differs from DnfImpl.tla's prediction (implementation-shaped: never an alarm)
+        self.drift_impl_ex = None
         self.events = {}          # ev -> count
         self.nevents = 0
         self.ncases = {}          # label -> cases replayed
@@ -105,6 +107,9 @@ def validate(ctx, part, trace, label, lines=None, natoms=4):
                 seen.add(rec["l"])
                 rec["label"] = label
                 ctx.bads.append((part, lines, rec))
+            elif p.startswith("DRIFT-IMPL "):
+                ctx.drift_impl += 1
+                ctx.drift_impl_ex = ctx.drift_impl_ex or p[11:400]
             elif p.startswith("DRIFT "):
                 ctx.drift += 1
         ctx.chk.traces += 1
@@ -169,9 +174,18 @@ def gen_dnf(ctx, pool, drv, cfg, label, ev_per_case):
     return replay_script(ctx, pool, drv, "dnf", label, lines, ev_per_case)
 
 
-def model_only(ctx, module, cfg):
-    res = vlib.tlc(module, cfg, workers=4, timeout=1500, xmx="4g", extra=TLC_EXTRA, env=JVM_LONG)
+def model_only(ctx, module, cfg, expect_violation=None):
+    """(A) only: TLC on a module of the design.  expect_violation: the run documents a defect of the pinned
+    commit at design level (DnfImpl as written); its counterexample is recorded, it is not a verdict on the code."""
+    res = vlib.tlc(module, cfg, workers=4, timeout=1500, xmx="4g", extra=TLC_EXTRA, env=JVM_SHORT)
     with ctx.lock:
+        if expect_violation:
+            if res.error:
+                raise vlib.MachineryError("TLC run %s failed: %s" % (cfg, res.error))
+            ctx.chk.extra["design_level_%s" % cfg] = {
+                "violated": res.violated, "note": "implementation-shaped model of dnf.c as written; the code itself is judged "
+                "by trace validation against Dnf.tla", "counterexample": res.trace_text[:600]}
+            return
         ctx.chk.add_tlc("%s:%s" % (module, cfg), res)
         if res.violated:
             ctx.chk.violation("design model %s violates %s (%s)" % (module, res.violated, cfg), res.trace_text,
@@ -207,7 +221,7 @@ def single_case(line):
         fh.write(line + "\n")
     subprocess.run([drv, "script", os.path.join(wd, "s"), os.path.join(wd, "t.ndjson")], stderr=subprocess.DEVNULL)
     print(open(os.path.join(wd, "t.ndjson")).read())
-    dnf = line[0] in "FQL"
+    dnf = line[0] in "FQqL"
     res = vlib.tlc("TraceDnf" if dnf else "TraceContainers", "TraceDnf10" if dnf else "TraceContainers", workers=1,
                    env={"TRACE": os.path.join(wd, "t.ndjson")}, timeout=300, extra=TLC_EXTRA)
     if res.error:
@@ -228,7 +242,7 @@ def run(chk, tier):
         chk.rule = "one case given in C20_CASE"
         for p in bad:
             rec = json.loads(p[4:])
-            chk.violation("single case: %s %s" % (rec.get("ev"), rec.get("why")), rec, key=bad_key("dnf" if os.environ["C20_CASE"][0] in "FQL" else "containers", rec))
+            chk.violation("single case: %s %s" % (rec.get("ev"), rec.get("why")), rec, key=bad_key("dnf" if os.environ["C20_CASE"][0] in "FQqL" else "containers", rec))
         return
     thorough = tier == "thorough"
     b = vlib.vbuild()
@@ -259,6 +273,10 @@ def run(chk, tier):
     gens.append(gpool.submit(gen_containers, ctx, pool, drv, "ContainersGenV", "genV", (3, 2), 4))
     gens.append(gpool.submit(gen_containers, ctx, pool, drv, "ContainersGenVseq" + suf, "genVseq", (3, 2), 5))
     first.append(gpool.submit(model_only, ctx, "Dnf", "DnfModel" + suf))
+    first.append(gpool.submit(model_only, ctx, "TableImpl", "TableImplT"))
+    first.append(gpool.submit(model_only, ctx, "TableImpl", "TableImplP" + suf))
+    first.append(gpool.submit(model_only, ctx, "DnfImpl", "DnfImplFixed"))
+    first.append(gpool.submit(model_only, ctx, "DnfImpl", "DnfImplAsWritten", "ImplOk"))
 
     # (C) random formulas: inputs from the seed, judged by TLC
     nf4, nq4, nf10, nq10 = (60000, 20000, 6000, 3000) if thorough else (2500, 1200, 300, 200)
@@ -326,7 +344,9 @@ def run(chk, tier):
         "events_by_kind": dict(sorted(ctx.events.items())),
         "cases_by_set": ctx.ncases,
         "bad_events_by_key": [{"key": g["key"], "count": g["n"]} for g in groups.values()],
-        "drift": {"dnfIsTrue/dnfIsFalse fail to recognise a constant DNF (not a violation: soundness only is required)": ctx.drift},
+        "drift": {"dnfIsTrue/dnfIsFalse fail to recognise a constant DNF (not a violation: soundness only is required)": ctx.drift,
+                  "finished formulas whose DNF differs from the prediction of DnfImpl.tla (dnf.c as written)": ctx.drift_impl,
+                  "first": ctx.drift_impl_ex},
     })
     chk.assumptions += [
         "btreeDelete is only called with a key the tree contains, btreeSearchMin/Max results are only read on a non-empty "
